@@ -459,4 +459,205 @@ theorem cond_normal_more_shape {fuel use c test results clauses} (hu : IsList us
   rw [specTransform_cons_none h1, specTransform_cons_none h2, specTransform_cons_none h3, specTransform_cons_none h4, specTransform_cons_none h5, specTransform_cons_none h6, specTransform_cons_some hm]
   spec_inst
 
+/-! ## case
+
+The literals are `else` and `=>`. The first rule takes every use whose key is a non-empty proper
+list, so the other six need a key that is not one (`hk`); the textual order forces the remaining
+side conditions. -/
+
+/-- `(case (k₁ …) clause₁ …)` ⟹ `(let ((atom-key (k₁ …))) (case atom-key clause₁ …))`, for a key
+that is a non-empty list and one or more clauses -/
+theorem case_list_key_shape {fuel use k keys clauses} (hu : IsList use (k :: clauses))
+    (hkl : IsList k keys) (hkn : keys ≠ []) (hcl : clauses ≠ []) (hf : matchFuel use ≤ fuel) :
+    expand1 fuel "case" use =
+      .ok (L use.loc [S use.loc "let", L use.loc [L use.loc [S use.loc "atom-key", L use.loc keys]],
+        L use.loc (S use.loc "case" :: S use.loc "atom-key" :: clauses)]) := by
+  rw [expand1_eq_spec case_rules (by rfl) (by rfl) hf]
+  have hm : specMatch ["else", "=>"] (pl [pl [pv "key", pe], pv "clauses", pe]) use =
+      some [("key", keys), ("clauses", clauses)] := by
+    rw [specMatch_ofList_isList hu (by rfl)]; spec_match [specMatch_ofList_isList hkl]
+  simp only [caseRules]
+  rw [specTransform_cons_some hm]
+  spec_inst
+
+/-- `(case key (else => receiver))` ⟹ `(receiver key)` -/
+theorem case_else_arrow_shape {fuel use key c e a r} (hu : IsList use [key, c])
+    (hc : IsList c [e, a, r]) (he : isSym "else" e = true) (ha : isSym "=>" a = true)
+    (hk : ∀ ks, IsList key ks → ks = []) (hf : matchFuel use ≤ fuel) :
+    expand1 fuel "case" use = .ok (L use.loc [r, key]) := by
+  rw [expand1_eq_spec case_rules (by rfl) (by rfl) hf]
+  have h1 : specMatch ["else", "=>"] (pl [pl [pv "key", pe], pv "clauses", pe]) use = none := by
+    rw [specMatch_ofList_isList hu (by rfl)]; spec_match [specMatch_ofList_isList hc, specMatch_var_ell_nonlist _ hk]
+  have hm : specMatch ["else", "=>"] (pl [pv "key", pl [pv "else", pv "=>", pv "result"]]) use =
+      some [("key", [key]), ("result", [r])] := by
+    rw [specMatch_ofList_isList hu (by rfl)]; spec_match [specMatch_ofList_isList hc, specMatch_var_ell_nonlist _ hk]
+  simp only [caseRules]
+  rw [specTransform_cons_none h1, specTransform_cons_some hm]
+  spec_inst
+
+/-- `(case key (else result₁ …))` ⟹ `(begin result₁ …)`, provided the results are not
+`=> receiver` -/
+theorem case_else_shape {fuel use key c e results} (hu : IsList use [key, c])
+    (hc : IsList c (e :: results)) (he : isSym "else" e = true) (hne : results ≠ [])
+    (hna : ∀ a r, results = [a, r] → isSym "=>" a = false)
+    (hk : ∀ ks, IsList key ks → ks = []) (hf : matchFuel use ≤ fuel) :
+    expand1 fuel "case" use = .ok (L use.loc (S use.loc "begin" :: results)) := by
+  rw [expand1_eq_spec case_rules (by rfl) (by rfl) hf]
+  have h1 : specMatch ["else", "=>"] (pl [pl [pv "key", pe], pv "clauses", pe]) use = none := by
+    rw [specMatch_ofList_isList hu (by rfl)]; spec_match [specMatch_ofList_isList hc, specMatch_var_ell_nonlist _ hk]
+  have h2 : specMatch ["else", "=>"] (pl [pv "key", pl [pv "else", pv "=>", pv "result"]]) use = none := by
+    rw [specMatch_ofList_isList hu (by rfl)]
+    rcases results with _ | ⟨a, _ | ⟨r, _ | ⟨x, xs⟩⟩⟩
+    · exact absurd rfl hne
+    · spec_match [specMatch_ofList_isList hc, specMatch_var_ell_nonlist _ hk]
+    · have := hna a r rfl
+      spec_match [specMatch_ofList_isList hc, specMatch_var_ell_nonlist _ hk]
+    · spec_match [specMatch_ofList_isList hc, specMatch_var_ell_nonlist _ hk]
+  have hm : specMatch ["else", "=>"] (pl [pv "key", pl [pv "else", pv "result", pe]]) use =
+      some [("key", [key]), ("result", results)] := by
+    rw [specMatch_ofList_isList hu (by rfl)]; spec_match [specMatch_ofList_isList hc, specMatch_var_ell_nonlist _ hk]
+  simp only [caseRules]
+  rw [specTransform_cons_none h1, specTransform_cons_none h2, specTransform_cons_some hm]
+  spec_inst
+
+/-- `(case key ((atom₁ …) => receiver))` ⟹
+`(if (not (null? (memv key '(atom₁ …)))) (receiver key))` -/
+theorem case_arrow_shape {fuel use key c as atoms a r} (hu : IsList use [key, c])
+    (hc : IsList c [as, a, r]) (has : IsList as atoms) (hat : atoms ≠ [])
+    (ha : isSym "=>" a = true) (hk : ∀ ks, IsList key ks → ks = []) (hf : matchFuel use ≤ fuel) :
+    expand1 fuel "case" use =
+      .ok (L use.loc [S use.loc "if",
+        L use.loc [S use.loc "not", L use.loc [S use.loc "null?", L use.loc [S use.loc "memv", key, L use.loc [S use.loc "quote", L use.loc atoms]]]],
+        L use.loc [r, key]]) := by
+  rw [expand1_eq_spec case_rules (by rfl) (by rfl) hf]
+  have hase : isSym "else" as = false := by
+    cases atoms with
+    | nil => exact absurd rfl hat
+    | cons x xs => exact isSym_of_isList has
+  have h1 : specMatch ["else", "=>"] (pl [pl [pv "key", pe], pv "clauses", pe]) use = none := by
+    rw [specMatch_ofList_isList hu (by rfl)]; spec_match [specMatch_ofList_isList hc, specMatch_ofList_isList has, specMatch_var_ell_nonlist _ hk]
+  have h2 : specMatch ["else", "=>"] (pl [pv "key", pl [pv "else", pv "=>", pv "result"]]) use = none := by
+    rw [specMatch_ofList_isList hu (by rfl)]; spec_match [specMatch_ofList_isList hc, specMatch_ofList_isList has, specMatch_var_ell_nonlist _ hk]
+  have h3 : specMatch ["else", "=>"] (pl [pv "key", pl [pv "else", pv "result", pe]]) use = none := by
+    rw [specMatch_ofList_isList hu (by rfl)]; spec_match [specMatch_ofList_isList hc, specMatch_ofList_isList has, specMatch_var_ell_nonlist _ hk]
+  have hm : specMatch ["else", "=>"] (pl [pv "key", pl [pl [pv "atoms", pe], pv "=>", pv "result"]]) use =
+      some [("key", [key]), ("atoms", atoms), ("result", [r])] := by
+    rw [specMatch_ofList_isList hu (by rfl)]; spec_match [specMatch_ofList_isList hc, specMatch_ofList_isList has, specMatch_var_ell_nonlist _ hk]
+  simp only [caseRules]
+  rw [specTransform_cons_none h1, specTransform_cons_none h2, specTransform_cons_none h3, specTransform_cons_some hm]
+  spec_inst
+
+/-- `(case key ((atom₁ …) result₁ …))` ⟹ `(if (memv key '(atom₁ …)) (begin result₁ …))`, provided
+the results are not `=> receiver` -/
+theorem case_normal_shape {fuel use key c as atoms results} (hu : IsList use [key, c])
+    (hc : IsList c (as :: results)) (has : IsList as atoms) (hat : atoms ≠ [])
+    (hne : results ≠ []) (hna : ∀ a r, results = [a, r] → isSym "=>" a = false)
+    (hk : ∀ ks, IsList key ks → ks = []) (hf : matchFuel use ≤ fuel) :
+    expand1 fuel "case" use =
+      .ok (L use.loc [S use.loc "if", L use.loc [S use.loc "memv", key, L use.loc [S use.loc "quote", L use.loc atoms]],
+        L use.loc (S use.loc "begin" :: results)]) := by
+  rw [expand1_eq_spec case_rules (by rfl) (by rfl) hf]
+  have hase : isSym "else" as = false := by
+    cases atoms with
+    | nil => exact absurd rfl hat
+    | cons x xs => exact isSym_of_isList has
+  have h1 : specMatch ["else", "=>"] (pl [pl [pv "key", pe], pv "clauses", pe]) use = none := by
+    rw [specMatch_ofList_isList hu (by rfl)]; spec_match [specMatch_ofList_isList hc, specMatch_ofList_isList has, specMatch_var_ell_nonlist _ hk]
+  have h2 : specMatch ["else", "=>"] (pl [pv "key", pl [pv "else", pv "=>", pv "result"]]) use = none := by
+    rw [specMatch_ofList_isList hu (by rfl)]
+    rcases results with _ | ⟨a, _ | ⟨r, _ | ⟨x, xs⟩⟩⟩
+    · exact absurd rfl hne
+    · spec_match [specMatch_ofList_isList hc, specMatch_ofList_isList has, specMatch_var_ell_nonlist _ hk]
+    · have := hna a r rfl
+      spec_match [specMatch_ofList_isList hc, specMatch_ofList_isList has, specMatch_var_ell_nonlist _ hk]
+    · spec_match [specMatch_ofList_isList hc, specMatch_ofList_isList has, specMatch_var_ell_nonlist _ hk]
+  have h3 : specMatch ["else", "=>"] (pl [pv "key", pl [pv "else", pv "result", pe]]) use = none := by
+    rw [specMatch_ofList_isList hu (by rfl)]; spec_match [specMatch_ofList_isList hc, specMatch_ofList_isList has, specMatch_var_ell_nonlist _ hk]
+  have h4 : specMatch ["else", "=>"] (pl [pv "key", pl [pl [pv "atoms", pe], pv "=>", pv "result"]]) use = none := by
+    rw [specMatch_ofList_isList hu (by rfl)]
+    rcases results with _ | ⟨a, _ | ⟨r, _ | ⟨x, xs⟩⟩⟩
+    · exact absurd rfl hne
+    · spec_match [specMatch_ofList_isList hc, specMatch_ofList_isList has, specMatch_var_ell_nonlist _ hk]
+    · have := hna a r rfl
+      spec_match [specMatch_ofList_isList hc, specMatch_ofList_isList has, specMatch_var_ell_nonlist _ hk]
+    · spec_match [specMatch_ofList_isList hc, specMatch_ofList_isList has, specMatch_var_ell_nonlist _ hk]
+  have hm : specMatch ["else", "=>"] (pl [pv "key", pl [pl [pv "atoms", pe], pv "result", pe]]) use =
+      some [("key", [key]), ("atoms", atoms), ("result", results)] := by
+    rw [specMatch_ofList_isList hu (by rfl)]; spec_match [specMatch_ofList_isList hc, specMatch_ofList_isList has, specMatch_var_ell_nonlist _ hk]
+  simp only [caseRules]
+  rw [specTransform_cons_none h1, specTransform_cons_none h2, specTransform_cons_none h3, specTransform_cons_none h4, specTransform_cons_some hm]
+  spec_inst
+
+/-- `(case key ((atom₁ …) => receiver) clause₁ …)` ⟹
+`(if (memv key '(atom₁ …)) (receiver key) (case key clause₁ …))`, for one or more further clauses -/
+theorem case_arrow_more_shape {fuel use key c as atoms a r clauses}
+    (hu : IsList use (key :: c :: clauses)) (hc : IsList c [as, a, r]) (has : IsList as atoms)
+    (hat : atoms ≠ []) (ha : isSym "=>" a = true) (hcl : clauses ≠ [])
+    (hk : ∀ ks, IsList key ks → ks = []) (hf : matchFuel use ≤ fuel) :
+    expand1 fuel "case" use =
+      .ok (L use.loc [S use.loc "if", L use.loc [S use.loc "memv", key, L use.loc [S use.loc "quote", L use.loc atoms]], L use.loc [r, key],
+        L use.loc (S use.loc "case" :: key :: clauses)]) := by
+  rw [expand1_eq_spec case_rules (by rfl) (by rfl) hf]
+  have hase : isSym "else" as = false := by
+    cases atoms with
+    | nil => exact absurd rfl hat
+    | cons x xs => exact isSym_of_isList has
+  have h1 : specMatch ["else", "=>"] (pl [pl [pv "key", pe], pv "clauses", pe]) use = none := by
+    rw [specMatch_ofList_isList hu (by rfl)]; spec_match [specMatch_ofList_isList hc, specMatch_ofList_isList has, specMatch_var_ell_nonlist _ hk]
+  have h2 : specMatch ["else", "=>"] (pl [pv "key", pl [pv "else", pv "=>", pv "result"]]) use = none := by
+    rw [specMatch_ofList_isList hu (by rfl)]; spec_match [specMatch_ofList_isList hc, specMatch_ofList_isList has, specMatch_var_ell_nonlist _ hk]
+  have h3 : specMatch ["else", "=>"] (pl [pv "key", pl [pv "else", pv "result", pe]]) use = none := by
+    rw [specMatch_ofList_isList hu (by rfl)]; spec_match [specMatch_ofList_isList hc, specMatch_ofList_isList has, specMatch_var_ell_nonlist _ hk]
+  have h4 : specMatch ["else", "=>"] (pl [pv "key", pl [pl [pv "atoms", pe], pv "=>", pv "result"]]) use = none := by
+    rw [specMatch_ofList_isList hu (by rfl)]; spec_match [specMatch_ofList_isList hc, specMatch_ofList_isList has, specMatch_var_ell_nonlist _ hk]
+  have h5 : specMatch ["else", "=>"] (pl [pv "key", pl [pl [pv "atoms", pe], pv "result", pe]]) use = none := by
+    rw [specMatch_ofList_isList hu (by rfl)]; spec_match [specMatch_ofList_isList hc, specMatch_ofList_isList has, specMatch_var_ell_nonlist _ hk]
+  have hm : specMatch ["else", "=>"] (pl [pv "key", pl [pl [pv "atoms", pe], pv "=>", pv "result"], pv "clauses", pe]) use =
+      some [("key", [key]), ("atoms", atoms), ("result", [r]), ("clauses", clauses)] := by
+    rw [specMatch_ofList_isList hu (by rfl)]; spec_match [specMatch_ofList_isList hc, specMatch_ofList_isList has, specMatch_var_ell_nonlist _ hk]
+  simp only [caseRules]
+  rw [specTransform_cons_none h1, specTransform_cons_none h2, specTransform_cons_none h3, specTransform_cons_none h4, specTransform_cons_none h5, specTransform_cons_some hm]
+  spec_inst
+
+/-- `(case key ((atom₁ …) result₁ …) clause₁ …)` ⟹
+`(if (memv key '(atom₁ …)) (begin result₁ …) (case key clause₁ …))`, provided the results are not
+`=> receiver` -/
+theorem case_normal_more_shape {fuel use key c as atoms results clauses}
+    (hu : IsList use (key :: c :: clauses)) (hc : IsList c (as :: results))
+    (has : IsList as atoms) (hat : atoms ≠ []) (hne : results ≠ []) (hcl : clauses ≠ [])
+    (hna : ∀ a r, results = [a, r] → isSym "=>" a = false)
+    (hk : ∀ ks, IsList key ks → ks = []) (hf : matchFuel use ≤ fuel) :
+    expand1 fuel "case" use =
+      .ok (L use.loc [S use.loc "if", L use.loc [S use.loc "memv", key, L use.loc [S use.loc "quote", L use.loc atoms]],
+        L use.loc (S use.loc "begin" :: results), L use.loc (S use.loc "case" :: key :: clauses)]) := by
+  rw [expand1_eq_spec case_rules (by rfl) (by rfl) hf]
+  have hase : isSym "else" as = false := by
+    cases atoms with
+    | nil => exact absurd rfl hat
+    | cons x xs => exact isSym_of_isList has
+  have h1 : specMatch ["else", "=>"] (pl [pl [pv "key", pe], pv "clauses", pe]) use = none := by
+    rw [specMatch_ofList_isList hu (by rfl)]; spec_match [specMatch_ofList_isList hc, specMatch_ofList_isList has, specMatch_var_ell_nonlist _ hk]
+  have h2 : specMatch ["else", "=>"] (pl [pv "key", pl [pv "else", pv "=>", pv "result"]]) use = none := by
+    rw [specMatch_ofList_isList hu (by rfl)]; spec_match [specMatch_ofList_isList hc, specMatch_ofList_isList has, specMatch_var_ell_nonlist _ hk]
+  have h3 : specMatch ["else", "=>"] (pl [pv "key", pl [pv "else", pv "result", pe]]) use = none := by
+    rw [specMatch_ofList_isList hu (by rfl)]; spec_match [specMatch_ofList_isList hc, specMatch_ofList_isList has, specMatch_var_ell_nonlist _ hk]
+  have h4 : specMatch ["else", "=>"] (pl [pv "key", pl [pl [pv "atoms", pe], pv "=>", pv "result"]]) use = none := by
+    rw [specMatch_ofList_isList hu (by rfl)]; spec_match [specMatch_ofList_isList hc, specMatch_ofList_isList has, specMatch_var_ell_nonlist _ hk]
+  have h5 : specMatch ["else", "=>"] (pl [pv "key", pl [pl [pv "atoms", pe], pv "result", pe]]) use = none := by
+    rw [specMatch_ofList_isList hu (by rfl)]; spec_match [specMatch_ofList_isList hc, specMatch_ofList_isList has, specMatch_var_ell_nonlist _ hk]
+  have h6 : specMatch ["else", "=>"] (pl [pv "key", pl [pl [pv "atoms", pe], pv "=>", pv "result"], pv "clauses", pe]) use = none := by
+    rw [specMatch_ofList_isList hu (by rfl)]
+    rcases results with _ | ⟨a, _ | ⟨r, _ | ⟨x, xs⟩⟩⟩
+    · exact absurd rfl hne
+    · spec_match [specMatch_ofList_isList hc, specMatch_ofList_isList has, specMatch_var_ell_nonlist _ hk]
+    · have := hna a r rfl
+      spec_match [specMatch_ofList_isList hc, specMatch_ofList_isList has, specMatch_var_ell_nonlist _ hk]
+    · spec_match [specMatch_ofList_isList hc, specMatch_ofList_isList has, specMatch_var_ell_nonlist _ hk]
+  have hm : specMatch ["else", "=>"] (pl [pv "key", pl [pl [pv "atoms", pe], pv "result", pe], pv "clauses", pe]) use =
+      some [("key", [key]), ("atoms", atoms), ("result", results), ("clauses", clauses)] := by
+    rw [specMatch_ofList_isList hu (by rfl)]; spec_match [specMatch_ofList_isList hc, specMatch_ofList_isList has, specMatch_var_ell_nonlist _ hk]
+  simp only [caseRules]
+  rw [specTransform_cons_none h1, specTransform_cons_none h2, specTransform_cons_none h3, specTransform_cons_none h4, specTransform_cons_none h5, specTransform_cons_none h6, specTransform_cons_some hm]
+  spec_inst
+
 end Ruschm.C05
